@@ -250,29 +250,61 @@ Definition fetch_vlog (mode : vmode) (txlog : bytes) (vlogs : list bytes) (id : 
               end
   end.
 
-(* readValueAt(b, off, hvalue, skipIntegrityCheck) with len(b) = vlen; returns b[:n] on success *)
-Definition read_value_at (chk : bool) (mode : vmode) (txlog : bytes) (vlogs : list bytes)
-           (vlen off : N) (hval : bytes) : res bytes :=
-  let id := vlog_id off in
-  if (match mode with VEmbedded => false | _ => true end) && (id =? 0) && (0 <? vlen)
-  then Err EEOF else
-  do b <-
-    (if 0 <? vlen then
-       do log <- fetch_vlog mode txlog vlogs id;
-       if off_negative off then Err EEOF else
-       read_at log (vlog_off off) vlen
-     else Ok []);
-  if chk && (negb (len b =? vlen) || (if list_eq_dec N.eq_dec hval (H b) then false else true))
+(* the value cache (Options.VLogCacheSize > 0): keyed by the encoded offset only; None = no cache.
+   Eviction is not modelled (the theorems hold for EVERY cache content, so for every eviction
+   policy; the correspondence runs use a cache larger than the number of reads) *)
+Definition vcache := list (N * bytes).
+Fixpoint cache_get (c : vcache) (off : N) : option bytes :=
+  match c with
+  | [] => None
+  | (o, b) :: r => if o =? off then Some b else cache_get r off
+  end.
+Definition cache_lookup (c : option vcache) (off : N) : option bytes :=
+  match c with Some cc => cache_get cc off | None => None end.
+Definition cache_put (c : option vcache) (off : N) (b : bytes) : option vcache :=
+  match c with Some cc => Some ((off, b) :: cc) | None => None end.
+
+(* the final test of readValueAt: b is the caller's buffer (len vlen), n the number of bytes the
+   cache entry / the log read supplied *)
+Definition value_check (chk : bool) (vlen : N) (hval b : bytes) (n : N) : res bytes :=
+  if chk && (negb (vlen =? n) || (if list_eq_dec N.eq_dec hval (H (take n b)) then false else true))
   then Err ECorruptedData else Ok b.
+
+(* the read from the value log (cache miss) *)
+Definition raw_read (mode : vmode) (txlog : bytes) (vlogs : list bytes) (vlen off : N) : res bytes :=
+  do log <- fetch_vlog mode txlog vlogs (vlog_id off);
+  if off_negative off then Err EEOF else
+  read_at log (vlog_off off) vlen.
+
+(* readValueAt(b, off, hvalue, skipIntegrityCheck) with len(b) = vlen; returns b on success and
+   the cache as it is left. A cache hit copies the cached bytes into b (copy(b, bval), n = len(bval))
+   and a miss stores the bytes read BEFORE they are validated; both then go through the same
+   length-and-digest test, so what a hit returns has been validated in this very call. *)
+Definition read_value_at (chk : bool) (mode : vmode) (txlog : bytes) (vlogs : list bytes)
+           (c : option vcache) (vlen off : N) (hval : bytes) : res bytes * option vcache :=
+  if (match mode with VEmbedded => false | _ => true end) && (vlog_id off =? 0) && (0 <? vlen)
+  then (Err EEOF, c) else
+  if 0 <? vlen then
+    match cache_lookup c off with
+    | Some bval =>
+        (value_check chk vlen hval (take vlen (bval ++ repeat 0 (N.to_nat vlen))) (len bval), c)
+    | None =>
+        match raw_read mode txlog vlogs vlen off with
+        | Ok b => (value_check chk vlen hval b (len b), cache_put c off b)
+        | Err e => (Err e, c)
+        | Panic => (Panic, c)
+        end
+    end
+  else (value_check chk vlen hval [] 0, c).
 
 (* ImmuStore.ReadValue(entry) for a read-only entry that is not expired: an entry whose vLen is 0
    is answered with the empty value before anything is checked; a vLen above MaxValueLen is
    rejected before the buffer is allocated (since commit 85f50b0) *)
 Definition read_value (maxValueLen : N) (mode : vmode) (txlog : bytes) (vlogs : list bytes)
-           (vlen off : N) (hval : bytes) : res bytes :=
-  if vlen =? 0 then Ok [] else
-  if maxValueLen <? vlen then Err ECorruptedData else
-  read_value_at true mode txlog vlogs vlen off hval.
+           (c : option vcache) (vlen off : N) (hval : bytes) : res bytes * option vcache :=
+  if vlen =? 0 then (Ok [], c) else
+  if maxValueLen <? vlen then (Err ECorruptedData, c) else
+  read_value_at true mode txlog vlogs c vlen off hval.
 
 (* bytes allocated by ReadValue for the value buffer: make([]byte, entry.vLen) after the two tests *)
 Definition read_value_alloc (maxValueLen vlen : N) : N :=
@@ -280,25 +312,28 @@ Definition read_value_alloc (maxValueLen vlen : N) : N :=
 
 (* ---- the value loop of ExportTx (after readTx succeeded): a value whose read ends in io.EOF is
    taken for "truncated by retention" and its digest is exported instead; either all values are
-   exported or none. Result: the truncated flag and, per entry, the value or the digest ---- *)
+   exported or none. Result: the truncated flag and, per entry, the value or the digest; and the
+   cache as it is left (also when the export fails) ---- *)
 Fixpoint export_values (chk : bool) (maxValueLen : N) (mode : vmode) (txlog : bytes) (vlogs : list bytes)
-         (es : list entry) (i : N) (trunc : bool) : res (bool * list bytes) :=
+         (c : option vcache) (es : list entry) (i : N) (trunc : bool)
+  : res (bool * list bytes) * option vcache :=
   match es with
-  | [] => Ok (trunc, [])
+  | [] => (Ok (trunc, []), c)
   | e :: r =>
-      if maxValueLen <? e_vlen e then Err ECorruptedData else      (* since commit 85f50b0 *)
-      match read_value_at chk mode txlog vlogs (e_vlen e) (e_voff e) (e_hval e) with
-      | Panic => Panic
-      | Err c =>
-          if c =? EEOF then
-            if negb trunc && (0 <? i) then Err ECorruptedData else
-            do (t, l) <- export_values chk maxValueLen mode txlog vlogs r (i + 1) true;
-            Ok (t, e_hval e :: l)
-          else Err c
+      if maxValueLen <? e_vlen e then (Err ECorruptedData, c) else      (* since commit 85f50b0 *)
+      let '(rv, c1) := read_value_at chk mode txlog vlogs c (e_vlen e) (e_voff e) (e_hval e) in
+      match rv with
+      | Panic => (Panic, c1)
+      | Err code =>
+          if code =? EEOF then
+            if negb trunc && (0 <? i) then (Err ECorruptedData, c1) else
+            let '(rr, c2) := export_values chk maxValueLen mode txlog vlogs c1 r (i + 1) true in
+            (match rr with Ok (t, l) => Ok (t, e_hval e :: l) | Err x => Err x | Panic => Panic end, c2)
+          else (Err code, c1)
       | Ok v =>
-          if trunc then Err ECorruptedData else
-          do (t, l) <- export_values chk maxValueLen mode txlog vlogs r (i + 1) trunc;
-          Ok (t, v :: l)
+          if trunc then (Err ECorruptedData, c1) else
+          let '(rr, c2) := export_values chk maxValueLen mode txlog vlogs c1 r (i + 1) trunc in
+          (match rr with Ok (t, l) => Ok (t, v :: l) | Err x => Err x | Panic => Panic end, c2)
       end
   end.
 
